@@ -524,8 +524,15 @@ func (in *w13Instance) ensureExecutors() {
 }
 
 func (in *w13Instance) allDbs() []*LockDB {
-	in.slock.glock.Lock()
-	defer in.slock.glock.Unlock()
+	// SLock.glock may be held for good by a handler that is stuck inside it; the table of databases is
+	// then read without it (entries are only ever added)
+	for try := 0; try < 200; try++ {
+		if in.slock.glock.TryLock() {
+			defer in.slock.glock.Unlock()
+			break
+		}
+		time.Sleep(time.Millisecond)
+	}
 	dbs := []*LockDB{}
 	for _, db := range in.slock.dbs {
 		if db != nil {
